@@ -430,6 +430,28 @@ fn items(tier: Tier) -> &'static Vec<Item> {
                 }
             }
         }
+        {
+            // magnitudes: long pipelines answered in forced orders (default schedule) - nothing
+            // may depend on how many requests a connection holds
+            let cycle = [Action::Respond(10), Action::Raw { writes: 0, body: 0, flush: false }, Action::Drop, Action::Raw { writes: 2, body: 1500, flush: true }];
+            for n in if thorough { vec![16usize, 65, 130, 300, 1030] } else { vec![65usize, 130] } {
+                let progs: Vec<Vec<Action>> = vec![
+                    vec![Action::Respond(10); n],
+                    (0..n).map(|i| cycle[i % 4].clone()).collect(),
+                    (0..n).map(|i| if i == 0 { Action::Respond(10) } else { Action::Raw { writes: 0, body: 0, flush: false } }).collect(),
+                ];
+                let orders: Vec<Vec<usize>> = vec![
+                    (0..n).rev().collect(),
+                    (1..n).chain(std::iter::once(0)).collect(),
+                    (0..n).filter(|i| i % 2 == 1).chain((0..n).filter(|i| i % 2 == 0)).collect(),
+                ];
+                for prog in &progs {
+                    for o in &orders {
+                        v.push(Item::Srv(SrvScenario { actions: prog.clone(), order: Some(o.clone()), late_last: false }, 0));
+                    }
+                }
+            }
+        }
         v
     })
 }
@@ -486,7 +508,7 @@ impl Check for C01 {
     }
     fn rule(&self, tier: Tier) -> String {
         format!(
-            "answer actions {:?}; n=2: every program, handler threads started in both forced orders (bound 0), all at once (strict bound 2), with the second request sent while the first handler already runs (connection thread parsing concurrently, bound 1), and at the SequentialWriter seam (ALL interleavings, unbounded); n=3: every program over 6 actions with all 6 forced orders, racing at strict bound 1{}; {} scenarios; oracle: the client stream parses into complete messages whose (status, request id) sequence is the request order (writers that emit nothing are skipped, a dropped request shows as 500), bodies carry their own request id, no hang; non-trivial = all",
+            "answer actions {:?}; n=2: every program, handler threads started in both forced orders (bound 0), all at once (strict bound 2), with the second request sent while the first handler already runs (connection thread parsing concurrently, bound 1), and at the SequentialWriter seam (ALL interleavings, unbounded); n=3: every program over 6 actions with all 6 forced orders, racing at strict bound 1{}; pipelines of 65 and 130 (thorough: 16, 65, 130, 300, 1030) requests with three programs (all respond / respond, unused writer, drop, two-part writer in turn / one respond followed by unused writers) answered in reverse, rotated and odd-then-even order at the default schedule; {} scenarios; oracle: the client stream parses into complete messages whose (status, request id) sequence is the request order (writers that emit nothing are skipped, a dropped request shows as 500), bodies carry their own request id, no hang; non-trivial = all",
             actions(tier).iter().map(|a| a.label()).collect::<Vec<_>>(),
             if tier == Tier::Thorough { " and at the seam at chess bound 2, plus chess bound 3 at the seam for the 27 programs over {respond, raw writer in two flushed parts, unused raw writer}; n=4: 4 actions, all 24 forced orders" } else { " and at the seam at chess bound 1; n=4: 3 actions (respond, unused raw writer, drop), all 24 forced orders" },
             items(tier).len()
